@@ -8,7 +8,7 @@
    repaired defects 1232b70b and the recorded finding F-C07-kdf-cost.  No cipher law is assumed: D and E are
    arbitrary, which covers decryption of hostile bytes under any key.
    Only statements, closed by `exact`, pinned by `Check`, audited by `Print Assumptions`. *)
-From PNA Require Import Base Crc32 Name Codec Chunk Archive Entry Flatten Cbc Ctr Pipeline Aes Camellia EntryFacts DecodeTotalFacts.
+From PNA Require Import Base Crc32 Name Codec Chunk Archive Entry Flatten Cbc Ctr Pipeline Aes Camellia ChunkFacts EntryFacts DecodeTotalFacts.
 Open Scope N_scope.
 
 Theorem C07_cbc_reader_never_panics :
@@ -93,3 +93,20 @@ Proof. exact (conj toy_verify_np id_decompress_np). Qed.
 Check C07_decode_premises_satisfiable :
   (forall s pw, toy_verify s pw <> Panic) /\ (forall c bs, id_decompress c bs <> Panic).
 Print Assumptions C07_decode_premises_satisfiable.
+
+(* C12 / C16: SolidEntry::entries ends WITHOUT error only if the decoded stream is a sequence of well-formed chunks
+   with matching CRCs — a wrong key on a stored CTR stream is reported unless its garbage is such a sequence *)
+Theorem C07_solid_clean_end_certifies_stream :
+  forall (E D : encryption -> bytes -> bytes -> bytes) (decompress : compression -> bytes -> res bytes)
+         (verify : bytes -> bytes -> res bytes) e pw rbufs es,
+  decode_solid E D decompress verify e pw rbufs = Ok (es, FinOk) ->
+  exists st cs, decode_stream E D decompress verify (s_comp (so_hdr e)) (s_enc (so_hdr e)) (s_mode (so_hdr e)) (so_phsf e) pw (so_data e) rbufs = Ok st
+                /\ st = ser_chunks cs /\ Forall ChunkFacts.wf_chunk cs.
+Proof. exact decode_solid_ok_shape. Qed.
+Check C07_solid_clean_end_certifies_stream :
+  forall (E D : encryption -> bytes -> bytes -> bytes) (decompress : compression -> bytes -> res bytes)
+         (verify : bytes -> bytes -> res bytes) e pw rbufs es,
+  decode_solid E D decompress verify e pw rbufs = Ok (es, FinOk) ->
+  exists st cs, decode_stream E D decompress verify (s_comp (so_hdr e)) (s_enc (so_hdr e)) (s_mode (so_hdr e)) (so_phsf e) pw (so_data e) rbufs = Ok st
+                /\ st = ser_chunks cs /\ Forall ChunkFacts.wf_chunk cs.
+Print Assumptions C07_solid_clean_end_certifies_stream.
